@@ -113,13 +113,15 @@ def r01_2(run, model, trs):
     run.floor("expression/statement traversals examined", n, 30)
 
 
-def r01_3(run, model, trs):
+def r01_3(run, model, trs, only_fns=None):
     run.rule("R01.3", "no arm of a pass drops a sub-term: every field of the matched variant that carries sub-terms is bound and used "
                       "(or the arm diverges / yields a constant / passes the whole node on / is a ledger entry)")
     n = 0
     for t in trs:
         if t.enum_name == "Ty":
             continue  # type traversals are audited by C07 R07.2 / C03
+        if only_fns is not None and not any(re.search(o, t.fn.qual) for o in only_fns):
+            continue
         ret = t.fn.node.get("ret") or ""
         if TYPE_RET.match(ret.replace(" ", "")):
             continue
@@ -160,7 +162,7 @@ def r01_3(run, model, trs):
                            witness=f"the user's code inside `{k}` of a {vname} node is lost (or not visited by an analysis that decides liveness/captures)")
                 if not dropped:
                     run.ob("R01.3", f"{t.fn.name}|{vname}|children used", True, site(t.fn.file, arm["sp"]), f"children {kids} all used")
-    run.floor("pass arms with sub-terms examined", n, 150)
+    run.floor("pass arms with sub-terms examined", n, 150 if only_fns is None else 10)
 
 
 def r01_4(run, model, trs):
